@@ -82,6 +82,9 @@ func genHistory(r *rand.Rand, g *wsclient.Gen, seed int64) *history {
 		DefMode:        r.Intn(3),
 		Modes:          map[string]int{},
 	}
+	if r.Intn(5) < 3 {
+		h.Cfg.WriteThenReadUS = 500 + r.Intn(2500)
+	}
 	for _, c := range []string{"n", "s", "obj", "items", "plain", "nums", "ku", "pu", "slow", "exp", "boom", "r"} {
 		if r.Intn(3) == 0 {
 			h.Cfg.Modes[c] = r.Intn(3)
@@ -221,6 +224,33 @@ func genHistory(r *rand.Rand, g *wsclient.Gen, seed int64) *history {
 		case x < 81:
 			h.Steps = append(h.Steps, wsclient.Step{Kind: "failwrite", N: 1 + r.Intn(3)})
 			h.EndByClose = true
+		case x < 89: // an unsubscribe / close arrives shortly after an invalidation of an idle, already-run subscription
+			pf := prefer()
+			if len(pf) == 0 {
+				continue
+			}
+			d := h.Cfg.WriteThenReadUS
+			if d == 0 {
+				d = 400
+			}
+			gap := 40 + r.Intn(d)
+			h.Steps = append(h.Steps, wsclient.Step{Kind: "idle"})
+			h.Steps = append(h.Steps, wsclient.Step{Kind: "write", Op: g.OpOn(pf[r.Intn(len(pf))]), PauseUS: gap})
+			if r.Intn(4) == 0 {
+				h.Steps = append(h.Steps, wsclient.Step{Kind: "close", Wait: true})
+				closed = true
+			} else {
+				var ks []string
+				for k := range live {
+					ks = append(ks, k)
+				}
+				sort.Strings(ks)
+				for _, id := range ks { // unsubscribe everything that is live: one of them is the invalidated one
+					delete(live, id)
+					h.Steps = append(h.Steps, wsclient.Step{Kind: "unsub", ID: id})
+				}
+				h.Steps = append(h.Steps, wsclient.Step{Kind: "sync", PauseUS: 2 * d})
+			}
 		default: // something lands while a run is in flight
 			pf := prefer()
 			if len(pf) == 0 {
@@ -347,8 +377,8 @@ func TestCheck(t *testing.T) {
 	defer run.Finish()
 	run.Rule("histories over one websocket connection (scripted JSONSocket, recording SubscriptionLogger, WithMaxSubscriptions 2-4): 10-35 steps of subscribe / unsubscribe / mutate / echo / url / malformed envelopes with ids from a pool of 3 shared by ALL message types (plus fresh ids), undecodable frames, " +
 		"writes and invalidate-everything steps, resolver failures (initial and on re-run, safe and unsafe; failing mutations), context cancellation, socket close at a random step (ReadJSON error) or through a failing WriteJSON, gate steps (a resolver of an in-flight run is held while an unsubscribe(+re-subscribe) / close / cancel / colliding mutate / subscribe lands), " +
-		"a failing-subscribe+unsubscribe+re-subscribe motif, unsubscribe+subscribe played while a closeSubscription call is held at its entry, writes injected at hook points; every subscription query carries a unique tag that its resolvers log and a field that creates a reactive.Resource with a Cleanup counter. " +
-		"Every history ends with socket close, three invalidate-everything settle rounds and a quiescence wait. 4 pinned histories first. Non-trivial = the history has an end-by-close, an id collision or a failure. Distinct = step-kind sequence + end kinds of the instances.")
+		"an unsubscribe-all / close sent a fraction of the write-then-read delay after a write that invalidates an idle subscription, a failing-subscribe+unsubscribe+re-subscribe motif, unsubscribe+subscribe played while a closeSubscription call is held at its entry, writes injected at hook points; every subscription query carries a unique tag that its resolvers log and a field that creates a reactive.Resource with a Cleanup counter. " +
+		"reactive.WriteThenReadDelay is 0 in 2/5 of the histories and 0.5-3 ms in the rest. Every history ends with socket close, three invalidate-everything settle rounds and a quiescence wait. 4 pinned histories first. Non-trivial = the history has an end-by-close, an id collision or a failure. Distinct = step-kind sequence + end kinds of the instances.")
 	run.Assume("a subscription instance is a logger Subscribe call inside the handle window of a subscribe message; it ends at the first of: logger Unsubscribe(id), read-enter after its unsubscribe message, ServeJSONSocket returned")
 	run.Assume("Unsubscribe logger calls for ids of mutations (never subscribed) are tolerated")
 	run.Assume("rejecting a subscribe early (a mutation in flight occupies a slot or an id) is not a violation")
